@@ -79,8 +79,14 @@ package common
 //@   loop 1 invariant len(orderByFee) == it1 && forall j int :: 0 <= j && j < it1 ==> wfEntry(orderByFee[j])
 //@   loop 2 invariant 0 <= num && num == len(txList) && num <= it2 && (it2 > 0 ==> num < count || it2 == 0) && len(orderByFee) == len(tp.txList)
 //@   loop 2 invariant forall j int :: 0 <= j && j < len(txList) ==> current(txList[j], height)
+//@   loop 2 invariant num + len(oldTxList) == it2
 //@   loop 2 invariant forall j int :: 0 <= j && j < len(orderByFee) ==> wfEntry(orderByFee[j])
 //@   assume before "oldTxList = append(oldTxList, txEntry.Tx)" : wfEntry(txEntry) ==> txEntry != nil   -- definition instance
+//@   assert after "txList = append(txList, txEntry)" : forall j int :: 0 <= j && j < len(txList) ==> current(txList[j], height)
+//@   -- only stale entries are reported for re-verification, only current ones are handed over, none is skipped
+//@   assert[c37-stale-reported] before "oldTxList = append(oldTxList, txEntry.Tx)" : !current(txEntry, height)
+//@   assert[c37-current-handed] before "txList = append(txList, txEntry)" : current(txEntry, height)
+//@   ensures[c37-none-skipped] !byCount ==> len(r0) + len(r1) == len(tp.txList)
 //@   ensures[c37-at-most-configured] byCount && int(config.DefConfig.Consensus.MaxTxInBlock) > 0 ==> len(r0) <= int(config.DefConfig.Consensus.MaxTxInBlock)
 //@   ensures[c37-at-most-pool] len(r0) <= len(tp.txList)
 //@   ensures[c37-current] forall j int :: 0 <= j && j < len(r0) ==> current(r0[j], height)
@@ -94,7 +100,23 @@ package common
 //@   requires tp != nil && forall a int :: 0 <= a && a < len(txs) ==> txs[a] != nil
 //@   modifies mapof(tp.txList)
 //@   assume before "if !tp.compareTxHeight(txEntry, height)" : wfEntry(txEntry) ==> txEntry != nil && forall a int :: 0 <= a && a < len(txEntry.Attrs) ==> txEntry.Attrs[a] != nil   -- definition instance
-//@   loop 1 invariant res != nil && forall h [32]byte :: has(tp.txList, h) ==> old(has(tp.txList, h)) && tp.txList[h] == old(tp.txList[h])
+//@   loop 1 modifies fresh
+//@   loop 1 invariant res != nil && fresh(res) && fresh(ref(res.UnverifiedTxs)) && fresh(ref(res.OldTxs)) && fresh(ref(res.VerifiedTxs))
+//@   loop 1 invariant forall h [32]byte :: has(tp.txList, h) ==> old(has(tp.txList, h)) && tp.txList[h] == old(tp.txList[h])
 //@   loop 1 invariant forall h [32]byte :: (forall a int :: 0 <= a && a < it1 ==> txs[a].hash != h) ==> (has(tp.txList, h) <==> old(has(tp.txList, h)))
+//@   loop 2 invariant res != nil && fresh(res) && fresh(ref(res.UnverifiedTxs)) && fresh(ref(res.OldTxs)) && fresh(ref(res.VerifiedTxs))
 //@   ensures[c37-only-shrinks] forall h [32]byte :: has(tp.txList, h) ==> old(has(tp.txList, h)) && tp.txList[h] == old(tp.txList[h])
 //@   ensures[c37-only-listed] forall h [32]byte :: (forall a int :: 0 <= a && a < len(txs) ==> txs[a].hash != h) ==> (has(tp.txList, h) <==> old(has(tp.txList, h)))
+
+// shutdown: every transaction leaves the pool and is handed back
+//@ func (*TXPool).Remain
+//@   property C37
+//@   nopanic on
+//@   requires tp != nil
+//@   modifies mapof(tp.txList)
+//@   ensures[c37-remain-empties] forall h [32]byte :: !has(tp.txList, h)
+//@   ensures len(result) == old(len(tp.txList))
+//@   loop 1 modifies fresh
+//@   loop 1 invariant len(txList) == it1 && fresh(ref(txList))
+//@   loop 1 invariant forall h [32]byte :: has(tp.txList, h) <==> (old(has(tp.txList, h)) && forall a int :: 0 <= a && a < it1 ==> seq1[a] != h)
+//@   loop 1 invariant forall h [32]byte :: has(tp.txList, h) ==> tp.txList[h] == old(tp.txList[h])
